@@ -227,7 +227,7 @@ def main(ck, tier, w):
     acases = []
     for cb in FILECB:
         tr = w.sub('trace')
-        r = run.run_parser(d.path, cb, dump=w.mk('out'), trace=tr, skip='spend,create,eval')
+        r = run.run_parser(d.path, cb, dump=w.mk('out'), trace=tr, skip='spend,create,eval,dump_row,bal_row')
         nev = len(r.events)
         pts = range(1, nev + 1) if not quick else sorted(set(range(1, nev + 1, 3)) | set(range(max(1, nev - 14), nev + 1)))
         acases += [(cb, k, nev) for k in pts]
@@ -236,7 +236,7 @@ def main(ck, tier, w):
         cb, k, nev = c
         tr = w.sub('trace')
         dd = clone(d.path)
-        r = run.run_parser(dd, cb, dump=w.mk('out'), trace=tr, skip='spend,create,eval', abort_at=k)
+        r = run.run_parser(dd, cb, dump=w.mk('out'), trace=tr, skip='spend,create,eval,dump_row,bal_row', abort_at=k)
         shutil.rmtree(dd, ignore_errors=True)
         probs = judge(cb, r, good[cb], final_names(cb, 0, n - 1))
         if r.rc not in (-signal.SIGABRT, 0):
